@@ -135,12 +135,48 @@ def pairs (req : Json) : R Reply := do
     let ops ← asList (asPair asStr asStr) (← field obs "pairs")
     return { model, holds := holdsPairs inp ops }
 
+def asVCaret (j : Json) : R VCaret :=
+  match j.getInt? with
+  | .ok n => pure (.plain n)
+  | .error _ => do return .var (← asList (asOpt asInt) j)
+
+def vcaretJ : VCaret → Json
+  | .plain n => intJ n
+  | .var vals => listJ (optJ intJ) vals
+
+/-- the glyph with, in every source, only the LAST caret anchor of each name kept (used only to classify a
+failure as the known same-name shape of the variable path) -/
+def lastNamedOnly (al : List Anchor) : List Anchor :=
+  al.foldr (fun a (acc : List Anchor) =>
+    if (ownCaret a).isSome && acc.any (fun b => b.name == a.name) then acc else a :: acc) []
+
+/-- op "varcarets": the LigatureCaretByPos statements of a variable build.
+in = {glyphs: [[name, [anchors of source 0, anchors of source 1, ...]]...], dflt}; obs = [[name, [caret...]]...] | {err} -/
+def varcarets (req : Json) : R Reply := do
+  let i ← field req "in"
+  let dflt ← asNat (← field i "dflt")
+  let gl ← asList (asPair asStr (asList (asList asAnchor))) (← field i "glyphs")
+  let glyphs : List VarGlyph := gl.map (fun e => { name := e.1, sources := e.2, dflt })
+  let m := glyphs.filterMap (fun g => if (glyphCaretSetVar g).isEmpty then none else some (g.name, glyphCaretsVar g))
+  let model := listJ (pairJ Json.str (listJ vcaretJ)) m
+  let obs ← field req "obs"
+  match obs.getObjVal? "err" with
+  | .ok _ => return { model, holds := false }
+  | .error _ =>
+    let o ← asList (asPair asStr (asList asVCaret)) obs
+    let ok (gs : List VarGlyph) := gs.all (fun g => holdsCaretsVar g ((alookup g.name o).getD []))
+    let names := decide ((o.map (·.1)).Nodup) && o.all (fun e => glyphs.any (fun g => g.name == e.1) && !e.2.isEmpty)
+    let h := ok glyphs && names
+    let h' := ok (glyphs.map (fun g => { g with sources := g.sources.map lastNamedOnly })) && names
+    return { model, holds := h, info := Json.mkObj [("holdsIfLastNamedOnly", h')] }
+
 def handle (op : String) (req : Json) : R Reply :=
   match op with
   | "font" => font req
   | "anchor" => anchor req
   | "cats" => cats req
   | "pairs" => pairs req
+  | "varcarets" => varcarets req
   | _ => throw s!"C18: unknown op {op}"
 
 end Ufo2ft.Drv.C18
